@@ -359,18 +359,30 @@ def judge(check, pid, records, verdicts, nontrivial=None, only=None):
             check.sample({"text": rec["text"][:200], "legacy": rec.get("legacy"), "outcome": rec["obs"]["outcome"]}, limit=4)
 
 
+def _one_config(args):
+    i, base, lib, legacy, with_twin = args
+    ctors = ("from_string", "from_graph", "from_fragment_dicts")
+    r = config_record(base, lib, legacy, ctors[i % 3])
+    if with_twin:
+        names = {f[0] for f in lib["frags"]}
+        if has_virtual_or_zero(base, names) and r["obs"]["outcome"] == "ok":
+            r["twin"] = twin_observation(base, lib["text"], names, not lib["coarse"], legacy)
+    return r
+
+
+def pmap(fn, items, chunksize=64):
+    """replay in worker processes (fork): the implementation is pure Python and single-threaded"""
+    import multiprocessing as mp
+    if len(items) < 200:
+        return [fn(x) for x in items]
+    ctx = mp.get_context("fork")
+    with ctx.Pool(common.NCPU) as pool:
+        return pool.map(fn, items, chunksize=chunksize)
+
+
 def config_records(check, tier, with_twin=False):
     cfgs = enumerate_configs(check, tier)
-    recs = []
-    ctors = ("from_string", "from_graph", "from_fragment_dicts")
-    for i, (base, lib, legacy) in enumerate(cfgs):
-        r = config_record(base, lib, legacy, ctors[i % 3])
-        if with_twin:
-            names = {f[0] for f in lib["frags"]}
-            if has_virtual_or_zero(base, names) and r["obs"]["outcome"] == "ok":
-                r["twin"] = twin_observation(base, lib["text"], names, not lib["coarse"], legacy)
-        recs.append(r)
-    return recs
+    return pmap(_one_config, [(i, b, l, g, with_twin) for i, (b, l, g) in enumerate(cfgs)])
 
 
 def repo_records():
@@ -520,4 +532,100 @@ def run_c12(tier):
     run_c12_structural(check, tier)
     from . import history
     history.run_histories(check, tier, ["X_Behaviour", "C12_Function", "C12_LibraryUntouched"])
+    return check.finish()
+
+
+# ----------------------------------------------------------------------------------------------
+# C06: layered resolutions
+# ----------------------------------------------------------------------------------------------
+def frag_block_text(frags):
+    return "{" + ",".join("#" + n + "=" + render.render_fragment_tokens(t) for n, t in frags) + "}"
+
+
+def layered_records(g, lay, smi):
+    """records for every step of a layered string (driven by repeated resolve) + the flattened two-level string"""
+    from .. import molgen
+    atom = lay["atomistic"]
+    blocks = [frag_block_text(f) for f in lay["coarse_levels"]] + [frag_block_text(atom["frags"])]
+    text = render.render_graph_tokens(lay["top"]) + "." + ".".join(blocks)
+    obs = project.run_resolve(text, last_all_atom=True, legacy=True)
+    ref, pos = molgen.reference_record(g, None)
+    recs = []
+    prev_fine = None
+    all_frags = list(lay["coarse_levels"]) + [atom["frags"]]
+    for i, frags in enumerate(all_frags):
+        step = obs["steps"][i] if i < len(obs["steps"]) else None
+        last = i == len(all_frags) - 1
+        rec = {"mode": "resolve", "text": text, "level": i, "smi": smi, "nlevels": len(all_frags),
+               "basekind": "tokens" if i == 0 else "graph", "base": lay["top"] if i == 0 else [],
+               "basegraph": {"names": [], "edges": []} if i == 0 else basegraph_of(prev_fine),
+               "frags": frags, "fragcoarse": not last, "legacy": True, "allAtom": last,
+               "obs": slim_obs(step, "ok" if step is not None else obs["outcome"])}
+        if last and step is not None:
+            wit = []
+            for n in step["fine"]["nodes"]:
+                if n["isH"] and not n["map"]:
+                    continue
+                targets = {atom["posmap"].get((m[0], m[1])) for m in n["map"]}
+                if len(targets) != 1 or None in targets:
+                    wit = vf2_witness(step["fine"], ref)
+                    break
+                wit.append([n["id"], pos[targets.pop()]])
+            rec["ref"] = {"atoms": [a[:3] + [[]] for a in ref["atoms"]], "bonds": ref["bonds"]}
+            rec["wit"] = wit
+            rec["noblocks"] = True
+        recs.append(rec)
+        if step is None:
+            break
+        prev_fine = step["fine"]
+    return recs, text
+
+
+def run_c06(tier):
+    check = Check("C06", tier=tier)
+    check.rule = ("catalogue and random molecules cut into blocks, the blocks grouped into 1-3 intermediate coarse levels "
+                  "(random connected groupings, descriptor pairs of the right order between groups); every step of the "
+                  "layered string is a trace (C06_Chain: its coarse graph is the previous fine graph; C02/C03 clauses), the "
+                  "final molecule must equal the reference molecule, as must the flattened two-level string; drivers and "
+                  "constructors are compared over the call histories of ResolverAPI.tla; non-trivial = >= 2 fragment levels")
+    from .. import molgen
+    rng = common.rng("c06")
+    mols = []
+    for smi in molgen.CATALOGUE:
+        try:
+            g = molgen.read_reference(smi)
+        except Exception:
+            continue
+        if g.number_of_nodes() >= 3:
+            mols.append((smi, g))
+    nrand = 40 if tier == "quick" else 1500
+    for i in range(nrand):
+        g = molgen.random_molecule(rng, rng.randint(4, 12))
+        if perceived_ok(g) and g.number_of_nodes() >= 3:
+            mols.append(("random%d" % i, g))
+    reps = 2 if tier == "quick" else 10
+    recs = []
+    nstr = 0
+    for smi, g in mols:
+        for _ in range(reps):
+            lay = molgen.layered_config(g, rng, rng.randint(1, 3), share_top=0.35 if rng.random() < 0.5 else 0.0)
+            if lay is None or lay["nlevels"] == 0:
+                continue
+            rr, text = layered_records(g, lay, smi)
+            recs += rr
+            nstr += 1
+            # the flattened two-level string of the same fragmentation
+            flat = cut_record(g, lay["atomistic"], legacy=True)
+            flat["smi"] = smi
+            flat["ref"] = {"atoms": [a[:3] + [[]] for a in flat["ref"]["atoms"]], "bonds": flat["ref"]["bonds"]}
+            flat["noblocks"] = True
+            flat["flat_of"] = text
+            recs.append(flat)
+    check.extra["layered_strings"] = nstr
+    verdicts = validate_with(check, recs, extra=("noblocks",))
+    clauses = ["X_Accepted", "X_CoarseIsInput", "C01_Original"] + CLAUSES["C02"] + CLAUSES["C03"]
+    CLAUSES["C06"] = clauses
+    judge(check, "C06", recs, verdicts, nontrivial=lambda r, v: r.get("nlevels", 1) >= 2)
+    from . import history
+    history.run_histories(check, tier, ["X_Behaviour", "C06_Drivers", "C12_Function"])
     return check.finish()
